@@ -382,19 +382,11 @@ theorem htj2k_validate (p : ValidateHtj2k.Parameters) :
     let r := (ValidateHtj2k.Parameters.Validate p).1
     (1 ≤ r.Quality ∧ r.Quality ≤ 100) ∧ r.BlockWidth ∈ pow2s 2 10 ∧ r.BlockHeight ∈ pow2s 2 10 ∧
       (0 ≤ r.NumLevels ∧ r.NumLevels ≤ 6) := by
-  have hb : ∀ b : Int, C17Model.nearestPowerOf2 (if b < 4 then 4 else if b > 1024 then 1024 else b) ∈ pow2s 2 10 := by
-    intro b
-    apply nearestPowerOf2_range
-    · repeat' split
-      all_goals omega
-    · repeat' split
-      all_goals omega
-  simp only [htj2k_validate_closed]
-  refine ⟨?_, hb _, hb _, ?_⟩
-  · repeat' split
-    all_goals omega
-  · repeat' split
-    all_goals omega
+  simp only [htj2k_validate_quality, htj2k_validate_levels, htj2k_validate_width, htj2k_validate_height]
+  have hw := clampI_range 4 1024 p.BlockWidth (by decide)
+  have hh := clampI_range 4 1024 p.BlockHeight (by decide)
+  exact ⟨clampI_range 1 100 _ (by decide), nearestPowerOf2_range _ hw.1 hw.2,
+    nearestPowerOf2_range _ hh.1 hh.2, clampI_range 0 6 _ (by decide)⟩
 
 example : (ValidateHtj2k.Parameters.Validate { Quality := 0, BlockWidth := 100, BlockHeight := 3, NumLevels := 9 }).1 =
     { Quality := 1, BlockWidth := 128, BlockHeight := 4, NumLevels := 6 } := by decide
